@@ -112,21 +112,32 @@ Expected(m) == IF m.coded THEN m.content ELSE RefPayload(m)
 CONSTANT NX     \* number of exchanges (in lockstep, on one connection while it is kept)
 XS == 1..NX
 
+\* the reference values of one message, evaluated once per message (by TLC) and kept in `ref`
+RefRec(m) == [framing   |-> RefFraming(m),
+              complete  |-> RefComplete(m),
+              completeS |-> RefCompleteStrict(m),
+              expected  |-> Expected(m),
+              bytes     |-> RefMessageBytes(m),
+              ibytes    |-> RefInterimBytes(m)]
+
 VARIABLES
   msgs,          \* msgs[x]: the message the server sends in answer to request x
+  ref,           \* ref[x] = RefRec(msgs[x])
   delivered,     \* delivered[x]: body octets handed to the download file
   recorded,      \* recorded[x]: concatenation of the response_data notifications (what the WARC recorder is fed)
   reqRecorded,   \* reqRecorded[x]: concatenation of the request_data notifications
   reqSent,       \* reqSent[x]: octets the server received for request x
   outcome,       \* outcome[x]: "none" | "ok" | "protocol_error" | "network_error" | "other_error" | "hang"
   connClosed,    \* connClosed[x]: the client had closed the connection when exchange x completed
-  leftover,      \* leftover[x]: octets sent by the server on that connection and not consumed at completion
+  leftover,      \* leftover[x]: octets the client had received on that connection and not consumed at completion
+  unseen,        \* unseen[x]: octets the server had sent and that had not yet reached the client at completion
   stalled,       \* stalled[x]: the client waited for octets beyond everything the server had to send
   reqRecs, respRecs,   \* number of WARC request / response records written for exchange x
   reqBlock, respBlock, \* their blocks (last one written)
-  linked         \* linked[x]: the response record names the request record of x as concurrent, both carry x's URL
+  linked,        \* linked[x]: the response record names the request record of x as concurrent, both carry x's URL
+  warcDone       \* the WARC file has been read back (monitor) / records are written synchronously (model)
 
-obsvars == <<delivered, recorded, reqRecorded, reqSent, outcome, connClosed, leftover, stalled,
+obsvars == <<delivered, recorded, reqRecorded, reqSent, outcome, connClosed, leftover, unseen, stalled,
              reqRecs, respRecs, reqBlock, respBlock, linked>>
 
 Done(x) == outcome[x] # "none"
@@ -134,24 +145,25 @@ Ok(x)   == outcome[x] = "ok"
 
 \* ------------------------------------------------------------------ C08
 \* the body handed to the caller is exactly the payload delimited by the framing rules
-Payload       == \A x \in XS : Ok(x) => delivered[x] = Expected(msgs[x])
+Payload       == \A x \in XS : Ok(x) => delivered[x] = ref[x].expected
 \* a message cut short (or with invalid framing) is never a success
-TruncIsError  == \A x \in XS : Ok(x) => RefComplete(msgs[x])
+TruncIsError  == \A x \in XS : Ok(x) => ref[x].complete
 \* a complete, well-framed message is a success (whatever the segmentation)
-CompleteIsOk  == \A x \in XS : (Done(x) /\ RefCompleteStrict(msgs[x])) => Ok(x)
+CompleteIsOk  == \A x \in XS : (Done(x) /\ ref[x].completeS) => Ok(x)
 \* the client only waits beyond the end of what the server sends when the framing is "until close"
-NoOverRead    == \A x \in XS : stalled[x] => RefFraming(msgs[x]) = "close"
-\* after a success on a kept connection nothing is left over: the next response is parsed from its
-\* first byte; surplus bytes go away with the connection
+NoOverRead    == \A x \in XS : stalled[x] => ref[x].framing = "close"
+\* after a success on a kept connection no received octet is left unconsumed: the next response is parsed
+\* from its first byte; surplus bytes go away with the connection.  (Lenient reading: octets still in
+\* flight when the response completes cannot be known to the client; PersistStrict counts them too and
+\* is reported as a note only.)
 Persist       == \A x \in XS : (Ok(x) /\ ~connClosed[x]) => leftover[x] = 0
+PersistStrict == \A x \in XS : (Ok(x) /\ ~connClosed[x]) => (leftover[x] = 0 /\ unseen[x] = 0)
 NoHang        == \A x \in XS : outcome[x] # "hang"
 
 \* ------------------------------------------------------------------ C04
-RespOK(x, b)  == b = RefMessageBytes(msgs[x]) \/ b = RefInterimBytes(msgs[x]) \o RefMessageBytes(msgs[x])
+RespOK(x, b)  == b = ref[x].bytes \/ b = ref[x].ibytes \o ref[x].bytes
 RespBytes     == \A x \in XS : Ok(x) => RespOK(x, recorded[x])
 ReqBytes      == \A x \in XS : Done(x) => reqRecorded[x] = reqSent[x]
-
-VARIABLE warcDone   \* the WARC file has been read back (monitor) / records are written synchronously (model)
 RecCount      == \A x \in XS : (warcDone /\ Ok(x)) => (reqRecs[x] = 1 /\ respRecs[x] = 1)
 RecAtMostOne  == \A x \in XS : reqRecs[x] <= 1 /\ respRecs[x] <= 1
 RecBlocks     == \A x \in XS : (warcDone /\ Ok(x) /\ reqRecs[x] = 1 /\ respRecs[x] = 1)
